@@ -34,6 +34,9 @@ CLAIMED = {
  "C06": ("writer/reader literal-table and constant agreement, idiom match for record boundaries and label derivation across sibling parsers",
          "Static: what a one-sided edit breaks is decided -- every writable format name has a parser and aliases agree, recognised and openable compression suffixes coincide, the PHYLIP name-field width/truncation equals the parser's offset, GDE/FASTA sigils and PAML/PHYLIP headers agree with their parsers, record boundaries are line-anchored in all three FASTA parsers and they derive labels and strip whitespace alike. parse(write(x)) == x for all x and chunk-size independence of line streaming are not decided.",
          "Trusts python ast and the enumerated accepted idioms (line[0] in label_char, startswith, split on newline+sigil, anchored regex)."),
+ "C10": ("class-hierarchy closure against the literal/provenance keys of the deserialiser registry (substring dispatch in registration order), writer/reader key-set agreement with delegation followed, lost-effect scan of deserialisers",
+         "Static: every class derived from a dispatched class that writes its own provenance is itself dispatched, ambiguous matches resolve to the most specific key first, keys are unique; the keys each deserialiser requires are written by the matching to_rich_dict and keys left for **data fit the constructor; no deserialiser rebuilds an object after applying setters. Observational equality of the round trip is not decided.",
+         "Trusts python ast, the resolver, import order (deserialise.py registers first), the NOT_SERIALISABLE exemption table (each with its reason)."),
 }
 
 NOT_APPLICABLE = {
